@@ -177,6 +177,16 @@ CHECKS = {
         "Standard and Athena SQL are judged by vp/sqlparse.py only (no engine offline); argument order inside function templates is free.",
         "DESIGN.md §6 C09",
     ),
+    "C15": (
+        "Hypothesis generation of filters x database instances over a fixed matrix of 30 base queries; metamorphic oracle (ordered multiset restriction of the base) + exhaustive registry import histories in fresh processes",
+        "For every base query (pre-filtered, pre-joined on the same or another relationship, outer-joined, ordered, "
+        "annotated, legacy Query, Manager, Core) the rows of apply(base, f) must equal the base's rows restricted to "
+        "the keys f selects on the unfiltered query, as a multiset (as a sequence when the base is ordered); "
+        "annotations stay selectable; an already-joined relationship appears once. sqlalchemy.func.<name> snapshots "
+        "are compared before/after importing the backend and across import orders.",
+        "The filter's own meaning is C02-C04's business; here only conjunction with the base is judged. SQLite only.",
+        "DESIGN.md §6 C15",
+    ),
 }
 
 ALL = ["C%02d" % i for i in range(1, 21)]
